@@ -690,3 +690,38 @@ def r16_9(run):
 
 
 RULES.append(("R16.9", r16_9))
+
+EXPLANATION += (' ' + '(R16.10) regression_function (the fit behind create_pump_from_parameters, called before anything is written) refuses a non-integer '
+                'polynomial degree: a test on `degree` guards a raise on the branch of the invalid value, and np.polyfit receives `degree` itself, not a value '
+                'rounded on the way.')
+
+
+def r16_10(run):
+    """invalid arguments are refused with the net unchanged: reg_polynomial_degree is documented as an integer.  The pump-curve fit
+    raises for a non-integer degree (the raise is what stops create_pump_from_parameters before the std type and the pump row are
+    written); a logged warning followed by a fit with the truncated degree registers a curve the caller did not ask for."""
+    ix = run.index
+    rf = ix.func("pandapipes.std_types.std_type_class.regression_function")
+    run.analysed(rf)
+    w = run.where(rf, rf.node)
+    guards = []
+    for n in own_walk(rf.node):
+        if isinstance(n, ast.If) and "degree" in U(n.test):
+            for arm in (n.body, n.orelse):
+                if arm and isinstance(arm[-1], ast.Raise):
+                    guards.append(n)
+    run.ob("regression_function|non-integer-degree-raises", bool(guards),
+           "a test on `degree` guards a raise: an invalid polynomial degree stops the creation before anything is written", w)
+    fits = [c for c in calls(rf.node) if callee_name(c) in ("polyfit", "np.polyfit", "numpy.polyfit") or U(c.func).endswith("polyfit")]
+    if not fits:
+        raise AnalysisError("unrecognised shape: regression_function does not call polyfit")
+    for c in fits:
+        a = c.args[2] if len(c.args) > 2 else next((k.value for k in c.keywords if k.arg == "deg"), None)
+        run.ob("regression_function|polyfit-gets-the-given-degree", isinstance(a, ast.Name) and a.id == "degree",
+               "np.polyfit is handed the degree the caller gave (no silent rounding between the check and the fit)", run.where(rf, c),
+               detail=U(a) if a is not None else None)
+    # the fit happens before the first write of create_pump_from_parameters (R16.1 orders checks and writes there)
+    run.floor(2)
+
+
+RULES.append(("R16.10", r16_10))
